@@ -21,6 +21,8 @@ PENDING = "planned under contract-based verification (see DESIGN.md section 6) b
 TEXT = {
  'C01': ("Deductive proof (Verus/Z3), for all buffers and every Matcher satisfying the documented trait contract, that the line searcher's fast, slow and inverted paths deliver a line as a match only if the pattern selects it (precondition of Core::sink_matched) and drop no selected line (postconditions of find_by_line_fast / match_by_line_* / SliceByLine::run); unbounded in input length and iteration count.",
          "contract-based deductive verification: Verus contracts spliced into the real functions of lines.rs/core.rs/glue.rs extracted from /repo on every run"),
+ 'C02': ("Deductive proof (Verus/Z3), for every read history and buffer capacity allowed by the line-buffer contract, that rolling and refilling preserve the searcher's representation invariant and offset/line-number bookkeeping (Core::roll, ReadByLine::fill/run), with the same per-buffer Core contracts discharged for the slice and reader strategies; strategy routing predicate multi_line_with_matcher proved against its spec.",
+         "contract-based deductive verification (Verus) of Core::roll, ReadByLine::{fill,run}, SliceByLine::run, Searcher::multi_line_with_matcher; LineBuffer operations in unit linebuf"),
  'C03': ("Deductive proof (Verus/Z3) of the grep-model bookkeeping of the searcher for all inputs: delivery order/uniqueness as preconditions of every sink_* call, true byte offset and 1-based line number of every event (count_lines, roll rebasing), separator logic, context reach, byte count of a completed slice search; line-location functions (locate, preceding, LineStep) proved against functional specs.",
          "contract-based deductive verification (Verus), functional specs for lines.rs, representation invariant + event coordinates for Core"),
  'C13': ("Deductive proof (Verus/Z3) of the multi-line strategy for all inputs and every Matcher satisfying the trait contract: the next match is the leftmost match at or after the position over the WHOLE input (postcondition taken from the property; it exposed the sub-slice defect now fixed), advance, the merge rule for touching/overlapping line ranges, delivery of a pending range exactly when the next match's lines start after it, protocol and ordering; one listed known finding for inverted mode.",
